@@ -24,61 +24,49 @@ structure RunSt where
   outs : List String := []
   brs : List String := []
 
-def guard (c : Bool) (k : Unit → Except Err α) : Except Err α := if c then k () else .error .assertion
-
-/-- one op of `tab.run`; ops are `name:arg:arg…` -/
-def stepOp (s : RunSt) (op : String) : Except Err RunSt :=
+def parseOp (op : String) : Option Tab.Op :=
   let parts := splitChar ':' op
   let name := parts.headD ""
   let arg (k : Nat) : Nat := ((parts.getD (k+1) "").toNat?).getD 0
   let argB (k : Nat) : Bool := (parts.getD (k+1) "") = "1"
-  let t := s.t
-  let gate1 (f : Tab → Nat → Tab) : Except Err RunSt :=
-    guard (arg 0 < t.n) fun _ => .ok { s with t := (f t (arg 0)).norm, brs := s.brs ++ ["gate1"] }
-  let gate2 (f : Tab → Nat → Nat → Tab) : Except Err RunSt :=
-    guard (arg 0 < t.n && arg 1 < t.n) fun _ => .ok { s with t := (f t (arg 0) (arg 1)).norm, brs := s.brs ++ ["gate2"] }
   match name with
-  | "h" => gate1 Tab.hGate
-  | "s" => gate1 Tab.sGate
-  | "sdg" => gate1 Tab.sdgGate
-  | "x" => gate1 Tab.xGate
-  | "y" => gate1 Tab.yGate
-  | "z" => gate1 Tab.zGate
-  | "cnot" => gate2 Tab.cnotGate
-  | "cz" => gate2 Tab.czGate
-  | "swap" => gate2 Tab.swapGate
-  | "meas" =>
-    match t.zMeasure? (arg 0) (argB 1) with
+  | "h" => some (.h (arg 0)) | "s" => some (.s (arg 0)) | "sdg" => some (.sdg (arg 0))
+  | "x" => some (.x (arg 0)) | "y" => some (.y (arg 0)) | "z" => some (.z (arg 0))
+  | "cnot" => some (.cnot (arg 0) (arg 1)) | "cz" => some (.cz (arg 0) (arg 1)) | "swap" => some (.swap (arg 0) (arg 1))
+  | "meas" => some (.meas (arg 0) (argB 1))
+  | "resetz" => some (.resetZ (arg 0) (argB 1) (argB 2))
+  | "resetx" => some (.resetX (arg 0) (argB 1) (argB 2))
+  | "resety" => some (.resetY (arg 0) (argB 1) (argB 2))
+  | "insert" => some (.insert (arg 0)) | "add" => some .add
+  | "remove" => some (.remove (arg 0) (argB 1))
+  | "ptrace" => some (.ptrace (natsOf '.' (parts.getD 1 "-")) ((parts.getD 2 "").toList.map (fun c => decide (c = '1'))))
+  | _ => none
+
+/-- branch tag of the model for the evidence histogram -/
+def branchOf (t : Tab) : Tab.Op → String
+  | .h _ | .s _ | .sdg _ | .x _ | .y _ | .z _ => "gate1"
+  | .cnot _ _ | .cz _ _ | .swap _ _ => "gate2"
+  | .meas q _ => if (t.pivot q).isSome then "meas:random" else "meas:det"
+  | .resetZ q _ _ | .resetX q _ _ | .resetY q _ _ => if (t.pivot q).isSome then "reset:random" else "reset:det"
+  | .insert _ => "insert" | .add => "add"
+  | .remove q _ =>
+    if (t.pivot q).isSome then "remove:random"
+    else if (filterTo t.n fun i => (t.row i).x q).length > 1 then "remove:det-many" else "remove:det-one"
+  | .ptrace _ _ => "ptrace"
+
+/-- one op of `tab.run`; ops are `name:arg:arg…` -/
+def stepOp (s : RunSt) (ops : String) : Except Err RunSt :=
+  match parseOp ops with
+  | none => .error .value
+  | some op =>
+    match s.t.applyOp op with
     | .error e => .error e
-    | .ok (t', o, p) => .ok { t := t'.norm, outs := s.outs ++ [b01 o ++ (if p ≠ 0 then "r" else "d")],
-                              brs := s.brs ++ [if p ≠ 0 then "meas:random" else "meas:det"] }
-  | "resetz" | "resetx" | "resety" =>
-    guard (arg 0 < t.n) fun _ =>
-      let br := if (t.pivot (arg 0)).isSome then "reset:random" else "reset:det"
-      let t' := match name with
-        | "resetz" => t.resetZ (arg 0) (argB 1) (argB 2)
-        | "resetx" => t.resetX (arg 0) (argB 1) (argB 2)
-        | _ => t.resetY (arg 0) (argB 1) (argB 2)
-      .ok { s with t := t'.norm, brs := s.brs ++ [br] }
-  | "insert" =>
-    match t.insertQubit? (arg 0) with
-    | .error e => .error e
-    | .ok t' => .ok { s with t := t'.norm, brs := s.brs ++ ["insert"] }
-  | "add" => .ok { s with t := t.addQubit.norm, brs := s.brs ++ ["add"] }
-  | "remove" =>
-    let br := if (t.pivot (arg 0)).isSome then "remove:random"
-              else if (filterTo t.n fun i => (t.row i).x (arg 0)).length > 1 then "remove:det-many" else "remove:det-one"
-    match t.removeQubit? (arg 0) (argB 1) with
-    | .error e => .error e
-    | .ok t' => .ok { s with t := t'.norm, brs := s.brs ++ [br] }
-  | "ptrace" =>
-    -- ptrace:<keep '.'-separated or ->:<outcome bits>
-    let keep := natsOf '.' (parts.getD 1 "-")
-    let os := (parts.getD 2 "").toList.map (fun c => decide (c = '1'))
-    match t.partialTrace keep os with
-    | .error e => .error e
-    | .ok t' => .ok { s with t := t'.norm, brs := s.brs ++ ["ptrace"] }
-  | _ => .error .value
+    | .ok (t', out) =>
+      .ok { t := t'.norm
+            outs := match out with
+              | some (o, rnd) => s.outs ++ [b01 o ++ (if rnd then "r" else "d")]
+              | none => s.outs
+            brs := s.brs ++ [branchOf s.t op] }
 
 def run (a : Args) : String :=
   let t := tabOf a
